@@ -457,9 +457,10 @@ impl CredentialStore for RecStore {
         {
             let mut g = self.state.lock().unwrap();
             if g.one_per_account {
+                // (a credential id is only unique within its RP here: the record that goes is the one of this RP)
                 let gone: Vec<Vec<u8>> = g.accounts.iter().filter(|(_, r, u)| *r == rp.id && u.as_slice() == user.id.as_slice()).map(|(i, _, _)| i.clone()).collect();
-                g.creds.retain(|c| !gone.iter().any(|i| c.credential_id.as_slice() == i.as_slice()));
-                g.accounts.retain(|(i, _, _)| !gone.contains(i));
+                g.creds.retain(|c| !(c.rp_id == rp.id && gone.iter().any(|i| c.credential_id.as_slice() == i.as_slice())));
+                g.accounts.retain(|(i, r, _)| !(*r == rp.id && gone.contains(i)));
             }
             g.accounts.push((cred.credential_id.to_vec(), rp.id.clone(), user.id.to_vec()));
             g.creds.push(cred);
